@@ -9,6 +9,7 @@ func init() {
 	scenarios["C03"] = scenarioC03
 	scenarios["C06"] = scenarioC06
 	scenarios["C07"] = scenarioC07
+	scenarios["C09"] = scenarioC09
 }
 
 func newSrvWorld(r *Run, cfg srvCfg) *srvWorld {
@@ -182,4 +183,28 @@ func scenarioC07(r *Run) {
 		return
 	}
 	w.shutdown()
+}
+
+// C09: server push. Calls of the client use ids 1,2,3,... which collide with
+// the callback ids of the server.
+func scenarioC09(r *Run) {
+	cfg := srvCfg{Prop: "C09", MaxMsgs: 5, MaxBatch: 3, SeqIDs: true, ReplyShaped: true, Pushes: 4, Stops: 1, HoldP: 0.4, NoteP: 0.4, KMax: 3}
+	cfg.ForcePush = r.Gen.Chance("forcepush", 0.85)
+	w := newSrvWorld(r, cfg)
+	w.start()
+	ok := w.drive(func() { w.checkC09(false) })
+	if !ok {
+		return
+	}
+	w.checkC09(false)
+	if r.Failed() || !w.shutdown() {
+		return
+	}
+	w.qpoints = append(w.qpoints, w.seq())
+	w.checkC09(true)
+	for _, a := range w.acts {
+		if a.Kind == aCallback && a.FromH != nil && a.FromH.Kind == mNote && a.Done && a.ErrV == nil {
+			r.Probe("notification-handler-awaited-callback")
+		}
+	}
 }
